@@ -7,6 +7,7 @@ CONSTANTS
   MaxForget = 2
   MaxFail = 1
   Cancellable = {}
+  MaxReprepare = 3
   UniqueIds = TRUE
   Plans <- PlansMost
 INVARIANTS Bounded PreparedOnce FailedNotCached FailedReported ExecAttribution ArityChecked Justified NoStuck
